@@ -24,6 +24,11 @@ ASSUMPTIONS = [
     "several matching calls on the SAME prepared network (case field calls = [{t: track numbers, radius, noise, how: single | "
     "collection, fresh}]): each call has its own search_radius / gps_noise and is judged with its own radius right after it "
     "returns; a track is matched again as the same Track object or as a fresh copy, and tracks share exact fix positions",
+    "parameters of mapOnNetwork(tracks, network, gps_noise=50, transition_cost=10, search_radius=50): search_radius >= 0 incl. "
+    "0 / 0.0 (the code keeps candidates with distance < radius, so nothing may be matched; the oracle tolerates only a match at "
+    "distance <= 1e-7*scale), tiny radii 1e-9 / 1e-3 (exact hits only), the ordinary values, or omitted (then the signature's "
+    "default 50 is the radius in force); gps_noise > 0 from 1e-3 to 1e9 or omitted (0 divides by zero - outside); handed over by "
+    "keyword or positionally (transition_cost = 10), integer-valued numbers as floats or as Python ints (case / call field args)",
     "every edge has positive length; index extent non-degenerate and resolution <= extent in each dimension "
     "(otherwise the index constructor divides by a zero cell count - not this property); margin >= 0.05",
     "network coordinates dyadic (step 1/4, collinear mid-vertices 1/8, 1/16) in [-512, 512]: exactly vertical / horizontal "
@@ -125,6 +130,28 @@ def _calls(case, ntracks):
     return [{"t": [i], "radius": r, "noise": n, "how": "single"} for i in range(ntracks)]
 
 
+DEFAULT_RADIUS = 50.0        # mapOnNetwork(tracks, network, gps_noise=50, transition_cost=10, search_radius=50, ...)
+ARG_STYLES = ["kw", "pos", "kw-int", "pos-int"]
+
+
+def _invoke(tracks, net, radius, noise, style):
+    """mapOnNetwork with the parameters handed over in one of the legal ways.  style "kw*": by keyword; "pos*": positionally
+    (gps_noise, transition_cost = its default 10, search_radius); "*-int": integer-valued numbers as Python ints (0 instead
+    of 0.0).  radius / noise None: the argument is omitted (the signature's default 50 applies)."""
+    conv = gen.as_int_if_integral if style.endswith("-int") else (lambda v: v)
+    args, kw = [], {}
+    if style.startswith("pos") and noise is not None:
+        args.append(conv(noise))
+        if radius is not None:
+            args += [10, conv(radius)]
+    else:
+        if noise is not None:
+            kw["gps_noise"] = conv(noise)
+        if radius is not None:
+            kw["search_radius"] = conv(radius)
+    mapOnNetwork(tracks, net, *args, **kw)
+
+
 def _snapshot(tr):
     out = []
     for i in range(tr.size()):
@@ -169,7 +196,14 @@ def body(case):
     matched_edges, n_un, cls = set(), 0, set()
     seen = {}                                  # (x, y) -> largest radius of an earlier call that had a fix there
     for ci, call in enumerate(calls):
-        radius, noise = call["radius"], call["noise"]
+        noise, style = call["noise"], call.get("args", case.get("args", "kw"))
+        given = call["radius"]
+        radius = DEFAULT_RADIUS if given is None else given      # what the oracle demands: the radius in force
+        cls.add("args=" + style)
+        cls.add("radius:" + ("omitted(default)" if given is None else "zero" if given == 0 else "tiny(<1e-2)" if given < 1e-2
+                             else "ordinary"))
+        cls.add("noise:" + ("omitted(default)" if noise is None else "tiny(<=1e-2)" if noise <= 1e-2 else "huge(>=1e6)"
+                            if noise >= 1e6 else "ordinary"))
         idx = list(call["t"])
         for i in idx:
             if tracks[i] is None or call.get("fresh"):
@@ -179,10 +213,10 @@ def body(case):
         aligned = [p for i in idx for p in tracks_obs[i] if p[0] in vx]
         try:
             if call["how"] == "collection":
-                mapOnNetwork(TrackCollection(list(objs)), net, gps_noise=noise, search_radius=radius)
+                _invoke(TrackCollection(list(objs)), net, given, noise, style)
             else:
                 for t in objs:
-                    mapOnNetwork(t, net, gps_noise=noise, search_radius=radius)
+                    _invoke(t, net, given, noise, style)
         except ZeroDivisionError as e:
             if exc_key(e) == "exc:ZeroDivisionError:proj_segment" and aligned:
                 raise Violation(KF_VERTICAL, "ZeroDivisionError in proj_segment; observation(s) %s have the x of an "
@@ -425,6 +459,8 @@ def _network(draw):
     return out
 
 
+_RADII_EDGE = [0.0, 0.0, 0.0, 1e-9, 1e-3, None]          # None: argument omitted
+_NOISES_EDGE = [1e-3, 0.01, 1e6, 1e9, None]
 _FACT = [0.0, 0.0, 0.01, 0.5, 0.9, 0.999, 1.0, 1.001, 1.1, 1.5, 1.9, 1.999, 2.0, 2.5, 5.0, 20.0]
 
 
@@ -434,12 +470,20 @@ def _case(draw):
     W = net.pop("W")
     case = dict(net)
     case["margin"] = draw(st.sampled_from([0.05, 0.05, 0.1, 0.15, 0.5]))
-    case["radius"] = draw(st.sampled_from(RADII + [0.5, 5.5]))
-    case["noise"] = draw(st.sampled_from(NOISES))
+    # parameters incl. their boundary values: radius 0 (nothing may be matched: the code demands d < radius), tiny radii
+    # (exact hits only), omitted (default 50); noise tiny / huge / omitted; handed over by keyword or positionally, as
+    # floats or as Python ints
+    case["radius"] = draw(st.sampled_from(2 * (RADII + [0.5, 5.5]) + _RADII_EDGE))
+    case["noise"] = draw(st.sampled_from(3 * NOISES + _NOISES_EDGE))
+    case["args"] = draw(st.sampled_from(ARG_STYLES))
     case["coll"] = draw(st.integers(0, 7)) == 0
     case["res"] = None
     edges = case["edges"]
     r = case["radius"]
+    if r is None:
+        r = DEFAULT_RADIUS
+    elif r < 0.5:
+        r = draw(st.sampled_from([1.0, 5.0, 25.0]))        # reference length of the offsets of the fixes when the radius is ~0
     if not edges:
         case["obs"] = [[0.0, 0.0]]
         return case
@@ -525,7 +569,7 @@ def _case(draw):
     # (the same Track object or a fresh copy) or share exact fix positions with tracks of earlier calls
     if draw(st.integers(0, 3)) == 0:
         nt = 1 + len(case.get("more", []))
-        s_rad = st.sampled_from([r, r, 0.2 * r, 0.5 * r, 2.0 * r] + RADII + [0.5, 5.5])
+        s_rad = st.sampled_from([r, r, 0.2 * r, 0.5 * r, 2.0 * r] + RADII + [0.5, 5.5] + _RADII_EDGE)
         calls = []
         for ci in range(draw(st.sampled_from([2, 2, 2, 3]))):
             if nt == 1 or draw(st.integers(0, 2)) == 0:
@@ -534,8 +578,9 @@ def _case(draw):
             else:
                 t = draw(st.lists(st.integers(0, nt - 1), min_size=1, max_size=nt, unique=True))
                 how = "collection" if len(t) > 1 else "single"
-            calls.append({"t": t, "radius": r if ci == 0 else draw(s_rad), "noise": draw(st.sampled_from(NOISES)),
-                          "how": how, "fresh": draw(st.integers(0, 2)) == 0})
+            calls.append({"t": t, "radius": case["radius"] if ci == 0 else draw(s_rad),
+                          "noise": draw(st.sampled_from(3 * NOISES + _NOISES_EDGE)),
+                          "how": how, "fresh": draw(st.integers(0, 2)) == 0, "args": draw(st.sampled_from(ARG_STYLES))})
         case["calls"] = calls
     return case
 
@@ -556,7 +601,7 @@ def _suite_network():
 def enum_sweep(tier):
     step = 1.0 if tier == "quick" else 0.25
     nx = int(round(38 / step))
-    for r in ([1.0, 5.5] if tier == "quick" else [0.5, 1.0, 2.5, 5.5, 25.0]):
+    for r in ([1.0, 5.5, 0.0] if tier == "quick" else [0.5, 1.0, 2.5, 5.5, 25.0, 0.0, 1e-6]):
         for res in ([5.0, 1.0], None, [2.0, 2.0]):
             if tier == "quick" and res is None:
                 continue
@@ -567,6 +612,7 @@ def enum_sweep(tier):
                         continue
                     case = _suite_network()
                     case.update({"margin": 0.15, "radius": r, "noise": 10.0, "coll": False, "res": res,
+                                 "args": "kw" if r else ARG_STYLES[i % 4],
                                  "obs": [[x + sh, y] for y in (-3.0, -1.0, 0.0, 0.5, 2.5, 4.0, 5.0, 6.0)]})
                     yield case
             if r != 1.0:
@@ -587,12 +633,15 @@ def enum_sweep(tier):
 RULE = ("random: Hypothesis - networks of 2..12 edges on 3..11 nodes (grid / shared-coordinate / free lattice / 3-decimal positions, "
         "0..2 interior vertices incl. doglegs, collinear and repeated vertices, orientations 0/+1/-1, edge ids != edge numbers), "
         "index resolution None / square / rectangular built from a cell count 1..40, margin 0.05..0.5, radius in "
-        "{0.5,1,5,5.5,25,100}, noise in {1,10,50}, 1..8 fixes = point of an edge + offset (on / perpendicular / along / axis "
+        "{0.5,1,5,5.5,25,100} (2/3) or a boundary value {0 (x3), 1e-9, 1e-3, omitted} (1/3), noise in {1,10,50} (9/14) or "
+        "{1e-3, 0.01, 1e6, 1e9, omitted}, parameters by keyword / positionally x float / int (labels args=*, radius:*, noise:*), "
+        "1..8 fixes = point of an edge + offset (in units of the radius; of 1 / 5 / 25 when the radius is < 0.5) (on / perpendicular / along / axis "
         "offsets of 0..20 radii, outside the index, free, very far); exact x-alignment with a vertical segment kept in 1 of 4. "
         "1..3 tracks per case (a quarter of the fixes of a later track repeat an exact earlier position); in about 1/3 of the cases 2..3 matching "
         "calls on the same prepared network, each with its own radius (the first one, or x0.2 / x0.5 / x2, or any of the list) and noise, "
         "on the same Track object or a fresh copy (labels calls=*, rematch-*, fix-position-seen-in-earlier-call:*, net-z=*). "
-        "sweep: the 6-edge network of test_mapping.py, 8-fix vertical tracks at every x of a lattice over [-4,34], "
+        "sweep: the 6-edge network of test_mapping.py, 8-fix vertical tracks at every x of a lattice over [-4,34], radii {1, 5.5, 0} "
+        "(thorough: {0.5, 1, 2.5, 5.5, 25, 0, 1e-6}; radius 0 handed over in all four ways), "
         "plus the same columns on that network with node heights matched three times (radius 5.5, 1.0, 5.5). "
         "Non-trivial: >= 2 fixes matched to different edges and >= 1 fix unmatched. Distinct = hash of the case.")
 
